@@ -5,6 +5,7 @@ Run with `lake env lean --run Main.lean`.  Imports only Mathlib-free model modul
 import Lean.Data.Json
 import Cnl2aspModel.Compiler.TemporalRange
 import Cnl2aspModel.Compiler.Cli
+import Cnl2aspModel.Asp.PrintAtom
 
 open Lean Cnl2aspModel
 
@@ -72,6 +73,27 @@ def c18cli (j : Json) : Json :=
   let r := cli f o
   Json.mkObj [("uncaught", Json.bool r.uncaught), ("printed", Json.str (reprStr r.printed)), ("file", Json.bool r.fileOpened)]
 
+open PrintAtom in
+def parseAtom (j : Json) : Atom :=
+  let attrs : List Attr := match j.getObjVal? "attrs" with
+    | .ok (Json.arr a) => a.toList.map fun x => ⟨jstr x "name", jstr x "value", jstrs x "origin"⟩
+    | _ => []
+  ⟨jstr j "name", attrs, jbool j "negated", jbool j "before", jbool j "after", jbool j "initial", jbool j "final"⟩
+
+open PrintAtom in
+def c14print (j : Json) : Json :=
+  let a := parseAtom j
+  -- name equality: string equality plus the extra pairs NameComponent.__eq__ identifies (passed by the harness)
+  let pairs : List (String × String) := match j.getObjVal? "eqpairs" with
+    | .ok (Json.arr ps) => ps.toList.filterMap fun p => match p with
+        | Json.arr #[Json.str x, Json.str y] => some (x, y)
+        | _ => none
+    | _ => []
+  let nameEq : String → String → Bool := fun x y => x == y || pairs.contains (x, y)
+  Json.mkObj [("flat", Json.str (printFlat a)), ("fn", Json.str (printFn nameEq a)),
+              ("flattened", Json.str (flattenFn nameEq a)),
+              ("contiguous", Json.bool (contiguous nameEq (measure a.attrs) a.name a.attrs))]
+
 open LineCol in
 def linecol (j : Json) : Json :=
   let s := (jstr j "s").toList
@@ -90,6 +112,7 @@ def dispatch (op : String) (j : Json) : Json :=
   | "c18.msg" => Ops.c18msg j
   | "c18.cli" => Ops.c18cli j
   | "linecol" => Ops.linecol j
+  | "c14.print" => Ops.c14print j
   | _ => Json.mkObj [("err", "bad-op")]
 
 partial def loop (h : IO.FS.Stream) (out : IO.FS.Stream) : IO Unit := do
